@@ -294,6 +294,9 @@ def check(case, ctx) -> Res:
         payload += frame(body)
     d = ctx.scratch.dir()
     rc, out, err, timed_out = run_lsp(payload, d)
+    if timed_out:
+        # 40 s is generous for ~30 messages, but a loaded machine can exceed it: decide with a budget load cannot explain
+        rc, out, err, timed_out = run_lsp(payload, ctx.scratch.dir(), timeout=240.0)
     cls = ("odd" if case["odd"] else "plain",)
     hist = describe(case)
     replies, leftover = parse_frames(out)
@@ -319,7 +322,7 @@ def check(case, ctx) -> Res:
                          f"first unanswered request: {json.dumps(last['msg'])[:300] if last else '?'}\n{err[-500:]}\n--- history\n{hist}",
                     classes=cls)
     if timed_out:
-        return fail("server still running 40 s after `exit`", f"--- history\n{hist}", classes=cls)
+        return fail("server still running 240 s after `exit`", f"--- history\n{hist}", classes=cls)
     if leftover.strip():
         return fail("stdout is not a well-framed JSON-RPC stream", f"leftover {leftover[:200]!r}\n--- history\n{hist}", classes=cls)
     for i in sent_ids:
